@@ -18,10 +18,15 @@ Model: `Chewing.Model.Der` (the shapes of the `der` crate the format uses) and
 entries, about}` at the level of the file's bytes), tied to `src/dictionary/trie.rs` by
 byte-for-byte correspondence on generated entry sets (`harness/src/bin/codec.rs`).
 
-Finding F13 (`data_len as u16` / `child_len as u16` truncated silently) is repaired in the
-repository (`fix:` commit): `write` returns an error beyond the 16-bit limits, which is what the
-model does (`writeLoop` returns `none`).  The statement is therefore about *successful* writes,
-together with `writes_within_limits`: inside the format's limits `write` does succeed.
+Findings repaired in the repository (`fix:` commits, see KNOWN_FINDINGS.txt):
+* F13 `data_len as u16` / `child_len as u16` truncated silently: `write` now returns an error beyond
+  the 16-bit limits, which is what the model does (`writeLoop` returns `none`).  The statement is
+  therefore about *successful* writes, together with `writes_within_limits`: inside the format's
+  limits `write` does succeed.
+* the phrase comparator of `write` was not a total order on leaves mixing single characters with
+  longer phrases (`sort_by` panicked on such a leaf of more than 20 phrases): now single characters
+  sort before longer phrases (`comparator_total_preorder`).
+* `trie.asn1` constrained `freq` to 0..65535 although a `u32` is encoded (`format_constants`).
 -/
 namespace Chewing.C11
 open Chewing Chewing.Der Chewing.TrieCodec
@@ -39,12 +44,14 @@ def ValidKey (k : List Nat) : Prop := ∀ s ∈ k, s ≠ 0
     where it stood (`none` = the key was never inserted) -/
 def inserted (es : List Entry) (k : List Nat) : Option (List Phrase) := refFind es k
 
-/-- the documented order of a leaf with inserted phrase vector `ps`: single characters keep
-    insertion order; multi-character phrases are ordered by descending frequency -/
+/-- the documented order of a leaf with inserted phrase vector `ps`: the single characters keep
+    their insertion order; the multi-character phrases are ordered by descending frequency (both as
+    subsequences, so also in a leaf that holds both kinds, where the single characters come first) -/
 def OrderDocumented (ps result : List Phrase) : Prop :=
   result.Perm ps ∧
-  ((∀ p ∈ ps, p.text.length = 1) → result = ps) ∧
-  ((∀ p ∈ ps, p.text.length ≠ 1) → result.Pairwise (fun a b => b.freq ≤ a.freq))
+  result.filter isSingle = ps.filter isSingle ∧
+  (result.filter fun p => !isSingle p).Pairwise (fun a b => b.freq ≤ a.freq) ∧
+  result.Pairwise (fun a b => isSingle b = true → isSingle a = true)
 
 /-- `groups` holds exactly the inserted keys satisfying `P`, each once, with its phrase vector -/
 def GroupsOf (es : List Entry) (P : List Nat → Prop) (groups : List (List Nat × List Phrase)) : Prop :=
@@ -202,7 +209,22 @@ theorem absent_key_empty (info : Info) (es : List Entry) (hv : ValidInput info e
 
 /-- `order_documented`: what the writer does to a leaf -/
 theorem order_documented (ps : List Phrase) : OrderDocumented ps (sortLeaf ps) :=
-  ⟨sortLeaf_perm ps, sortLeaf_single ps, sortLeaf_multi_freq ps⟩
+  ⟨sortLeaf_perm ps, sortLeaf_singles ps, sortLeaf_multis ps, sortLeaf_singles_first ps⟩
+
+/-- a leaf of single characters is returned in insertion order -/
+theorem order_single_leaf (ps : List Phrase) (h : ∀ p ∈ ps, p.text.length = 1) : sortLeaf ps = ps :=
+  sortLeaf_single ps h
+
+/-- a leaf of multi-character phrases is returned by descending frequency -/
+theorem order_multi_leaf (ps : List Phrase) (h : ∀ p ∈ ps, p.text.length ≠ 1) :
+    (sortLeaf ps).Pairwise (fun a b => b.freq ≤ a.freq) := sortLeaf_multi_freq ps h
+
+/-- the comparator of `write` is a total preorder (so `sort_by` cannot panic and every stable sort
+    gives the model's result): asymmetric, and "not after" is transitive -/
+theorem comparator_total_preorder (a b c : Phrase) :
+    (phraseLt a b = true → phraseLt b a = false) ∧
+    (phraseLt b a = false → phraseLt c b = false → phraseLt c a = false) :=
+  ⟨phraseLt_asymm a b, phraseLt_negtrans a b c⟩
 
 /-- `fuzzy_correct`: a fuzzy prefix lookup returns, leaf after leaf, exactly the inserted keys with
     the query's number of syllables whose every syllable begins with the corresponding partial
